@@ -9,6 +9,11 @@ C10.panic   no explicit panic / unwrap of parse results on wire-derived
 C10.commit  ZoneUpdater::apply publishes (commit) only at a batch boundary
             (BeginBatchDelete) or at Finished, after the SOA update; every error
             exit leaves without committing; nobody else commits the writer.
+C10.soa     the closing SOA of a transfer is compared with the opening SOA as a
+            whole record (not by serial only).
+C10.diff    the "old" side of the diff a writer records is read at the last
+            published version in both update_rrset and remove_rrset (sibling
+            agreement): the diff describes published-old -> new.
 C10.abandon an abandoned update is rolled back: shares the rollback-coverage,
             Drop and Versioned guard-table rules of C09 (rbk, drop, ver).
 """
@@ -34,6 +39,8 @@ def run(ctx):
     rule_chk(ctx, F)
     rule_panic(ctx, F)
     rule_commit(ctx, F)
+    rule_soa(ctx, F)
+    rule_diff(ctx, F)
     # abandoned work is rolled back (shared rules)
     c09.rule_rbk(ctx, F)
     c09.rule_drop(ctx, F)
@@ -191,3 +198,58 @@ def _awaited_ok(b, call_bb, site_bb, F):
                         if s2[0] == "call" and s2[5] == call_bb:
                             return True
     return False
+
+
+def rule_soa(ctx, F):
+    R = "C10.soa"
+    ctx.floor(R, 1)
+    b = F.one_body(r"^net::xfr::protocol::interpreter::RecordProcessor::process_record$")
+    if not ctx.anchor(R, "RecordProcessor::process_record", b):
+        return
+    n = 0
+    for bi, t in b.calls():
+        fn = t["fn"] or ""
+        if not re.search(r"::(eq|ne)$", fn) or len(t["args"]) != 2:
+            continue
+        terms = [b.term_of_operand(a) for a in t["args"]]
+        if not any(s[0] == "field" and s[2] == "initial_soa" for tt in terms for s in walk(tt)):
+            continue
+        n += 1
+        whole = bool(t["targs"]) and "rdata::rfc1035::soa::Soa" in t["targs"][0]
+        getter = [s[1].split("::")[-1] for tt in terms for s in walk(tt)
+                  if s[0] == "call" and s[1] and re.search(r"soa::Soa::<.*>::\w+$", s[1])]
+        ctx.ob(R, b, "closing SOA compared with the opening SOA as a whole#%d" % n, whole and not getter,
+               "process_record decides that a record closes the transfer by comparing %s instead of the complete "
+               "opening SOA: a stream whose closing SOA differs from the opening one (other than in what is compared) "
+               "is accepted as finished and committed" % (("Soa::%s()" % "/".join(getter)) if getter else t["targs"][:1]),
+               b.where(bi))
+    ctx.anchor(R, "comparison with self.initial_soa in process_record", n >= 1, b.where())
+
+
+def rule_diff(ctx, F):
+    R = "C10.diff"
+    ctx.floor(R, 2)
+    W = r"^zonetree::in_memory::write::WriteNode::"
+    seen = 0
+    for name in ("update_rrset", "remove_rrset"):
+        b = F.one_body(W + name + "$")
+        if not ctx.anchor(R, "WriteNode::%s" % name, b):
+            continue
+        gets = b.calls_matching(r"nodes::NodeRrsets::get$|NodeRrsets::get$")
+        # the lookups made while a diff is being recorded (dominated by self.diff being Some)
+        k = 0
+        for bb, t in gets:
+            under_diff = any(o == "success" and any(s[0] == "field" and s[2] == "diff" for s in walk(deep_strip(subj)))
+                             for subj, o in outcome_facts(b, bb, F)) or \
+                any(isinstance(vv, tuple) and vv[0] == "variant" and vv[1] == "Some" and
+                    any(s[0] == "field" and s[2] == "diff" for s in walk(deep_strip(tt))) for tt, vv, e in facts_at(b, bb, F))
+            if not under_diff:
+                continue
+            k += 1
+            seen += 1
+            prov = c09._provenance(F, b, b.term_of_operand(t["args"][2]))
+            ctx.ob(R, b, "diff's old side read at the last published version#%d" % k, prov == "last_published",
+                   "WriteNode::%s records the RRset being replaced/removed as it is at %s; the diff handed out on "
+                   "commit must describe last published -> new (several changes to one RRset inside a transaction "
+                   "otherwise under-report what was removed)" % (name, prov), b.where(bb))
+    ctx.anchor(R, "diff lookups in update_rrset and remove_rrset", seen >= 2)
